@@ -788,7 +788,7 @@ prop(dict(
     shards={"quick": 2, "thorough": 14},
     workers=16,
     nontrivial=lambda c: c["mask"] not in (0,),
-    mandatory=["h264_fu2_a", "h264_fu3_a", "h264_fu5_a", "h264_fu6_a_garbage", "h264_unfragmented_a", "av1_real_payloader", "av1_real_payloader_garbage", "h264_real_payloader", "h264_avc_real_payloader"],
+    mandatory=["h264_fu2_a", "h264_fu3_a", "h264_fu5_a", "h264_fu5_a_garbage", "h264_unfragmented_a", "av1_real_payloader", "av1_real_payloader_garbage", "h264_real_payloader", "h264_avc_real_payloader"],
     rule="TLC enumerates every delivered subset (mask) of frame A's packets (up to MaxA = 6 quick / 10 thorough packets) x frame A shapes (FU-A of 2/3/5/MaxA fragments, single, STAP-A, "
          "two fragmented units) x garbage prefixes x intact frame B shapes (FU-A, single, STAP-A + FU-A) for H264 in Annex-B and AVC mode from the independent encoder, and the same masks "
          "over frames produced by the real AV1 and H264 payloaders; the loss invariant is model-checked on the reference receiver and a no-resync specification mutant must violate it; "
